@@ -344,3 +344,47 @@ pub fn chunk_sizes(rng: &mut Rng) -> Vec<usize> {
         _ => (0..rng.usize(2, 5)).map(|_| rng.usize(1, 3000)).collect(),
     }
 }
+
+
+/// Differences between the head the application saw and the head the client sent.
+pub fn head_diffs(head: &crate::engine::HeadObs, m: &ReqMsg) -> Vec<String> {
+    let mut diffs = vec![];
+    let tr = |s: &str| if s.len() > 80 { format!("{}...({} bytes)", &s[..80], s.len()) } else { s.to_string() };
+    if head.method != m.method {
+        diffs.push(format!("method {:?} != sent {:?}", tr(&head.method), tr(&m.method)));
+    }
+    if head.url != m.target {
+        diffs.push(format!("target differs: got {:?} sent {:?}", tr(&head.url), tr(&m.target)));
+    }
+    if head.version != m.version {
+        diffs.push(format!("version {:?} != sent {:?}", head.version, m.version));
+    }
+    if head.headers.len() != m.headers.len() {
+        diffs.push(format!("{} headers delivered, {} sent", head.headers.len(), m.headers.len()));
+    } else {
+        for (k, (a, b)) in head.headers.iter().zip(m.headers.iter()).enumerate() {
+            if !a.0.eq_ignore_ascii_case(&b.0) {
+                diffs.push(format!("header #{} name {:?} != sent {:?}", k, a.0, b.0));
+                break;
+            }
+            if a.1 != b.1 {
+                diffs.push(format!("header #{} ({}) value {:?} != sent {:?}", k, b.0, tr(&a.1), tr(&b.1)));
+                break;
+            }
+        }
+    }
+    diffs
+}
+
+/// A body that is itself a sequence of complete requests (ids c9r<k>): if body bytes are
+/// ever parsed as requests, they are delivered and show up as foreign ids.
+pub fn requestlike_body(len: usize) -> Vec<u8> {
+    let mut o = Vec::with_capacity(len + 64);
+    let mut k = 0;
+    while o.len() < len {
+        o.extend_from_slice(format!("GET /in-body-{} HTTP/1.1\r\nX-Id: c9r{}\r\n\r\n", k, k).as_bytes());
+        k += 1;
+    }
+    o.truncate(len);
+    o
+}
